@@ -112,4 +112,28 @@ theorem Geom_Matrix_TransformPoint_eq (m : Geom_Matrix α) (p : Geom_Point α) :
     flatP (Geom_Matrix_TransformPoint m p) = (flatM m).transformPoint (flatP p) := by
   geo_tie [Gen.Geom_Matrix_TransformPoint, Geom.Matrix.transformPoint] []
 
+/-! ## transported specifications, at the two types the model is run and proved at -/
+
+when_translated Gen.Geom_Rect_Intersect in
+/-- the regenerated `Rect.Intersect` at Go `int` coordinates: a point is in the intersection iff it is in both
+    (`C18.intersect_spec_int`; the regenerated `Point.In` on both sides) -/
+theorem gen_intersect_spec_int (a b : Geom_Rect Int) (p : Geom_Point Int) :
+    Geom_Point_In p (Geom_Rect_Intersect a b) = (Geom_Point_In p a && Geom_Point_In p b) := by
+  rw [Geom_Point_In_eq, Geom_Point_In_eq, Geom_Point_In_eq, Geom_Rect_Intersect_eq]
+  exact C18.intersect_spec_int _ _ _
+when_translated Gen.Geom_Rect_Contains in
+/-- the regenerated `Rect.Contains` at exact rational coordinates (`C18.contains_iff_rat`) -/
+theorem gen_contains_iff_rat (a b : Geom_Rect Rat) :
+    Geom_Rect_Contains a b = true ↔
+      (flatR b).empty = false ∧ ∀ p : Geom.Point Rat, p.inRect (flatR b) = true → p.inRect (flatR a) = true := by
+  rw [Geom_Rect_Contains_eq]; exact C18.contains_iff_rat _ _
+when_translated Gen.Geom_Matrix_Multiply in
+/-- the regenerated `Matrix.Multiply` / `TransformPoint` compose (`C18.transform_multiply_rat`) -/
+theorem gen_transform_multiply_rat (m n : Geom_Matrix Rat) (p : Geom_Point Rat) :
+    flatP (Geom_Matrix_TransformPoint (Geom_Matrix_Multiply m n) p)
+      = flatP (Geom_Matrix_TransformPoint n (Geom_Matrix_TransformPoint m p)) := by
+  rw [Geom_Matrix_TransformPoint_eq, Geom_Matrix_Multiply_eq, Geom_Matrix_TransformPoint_eq,
+    Geom_Matrix_TransformPoint_eq]
+  exact C18.transform_multiply_rat (flatM m) (flatM n) (flatP p)
+
 end C18Gen
